@@ -295,9 +295,15 @@ macro_rules! dc_absorb {
         }
     };
 }
-dc_absorb!(dc_absorb_status, kani::any::<u8>() % 4);
-dc_absorb!(dc_absorb_send, 4 + kani::any::<u8>() % 2);
-dc_absorb!(dc_absorb_recv, 6 + kani::any::<u8>() % 2);
+// one public call per instance (a symbolic choice between calls multiplies the state by the number of calls)
+dc_absorb!(dc_absorb_set_connected, 0);
+dc_absorb!(dc_absorb_set_connecting, 1);
+dc_absorb!(dc_absorb_disconnect, 2);
+dc_absorb!(dc_absorb_transport, 3);
+dc_absorb!(dc_absorb_send_rel, 4);
+dc_absorb!(dc_absorb_send_unrel, 5);
+dc_absorb!(dc_absorb_recv_rel, 6);
+dc_absorb!(dc_absorb_recv_unrel, 7);
 dc_absorb!(dc_absorb_packet, 8);
 dc_absorb!(dc_absorb_gps, 9);
 dc_absorb!(dc_absorb_reason, 10);
